@@ -285,7 +285,18 @@ Section Tokens.
     | _ => inr e
     end.
 
+  (** [c08_tsv_skips_comment_lines] (notes/proposed_fixes/C06-comments-and-blank-lines.diff, finding
+      C06-F9): the loop begins with
+        [stripped_line = a_line.strip()]
+        [if stripped_line == "" or stripped_line.startswith("#"): continue]
+      -- a blank line or a comment line is no statement and no error.  Without it every line is split:
+      a comment line is a discarded line, or a triple when it happens to hold two tabs. *)
+  Definition tsv_skipped (l : str) : bool :=
+    c08_tsv_skips_comment_lines &&
+    (let s := strip l in str_eqb s [] || prefixb c08_tsv_comment_start s).
+
   Definition tsv_line (l : str) : tsv_out + cerr :=
+    if tsv_skipped l then inl TSkip else
     match split c08_tsv_sep (strip l) with
     | [t0; t1; t2] =>
       match tune_token false t0 with
